@@ -15,6 +15,7 @@ import (
 	"hop.computer/hop/certs"
 	"hop.computer/hop/common"
 	"hop.computer/hop/keys"
+	"hop.computer/hop/pkg/verifhook"
 )
 
 type serverState uint32
@@ -518,6 +519,7 @@ func (s *Server) Serve() error {
 	}
 	s.wg.Add(2)
 	s.lifecycleMu.Unlock()
+	verifhook.At("transport.Server.Serve.registered")
 
 	go func() {
 		defer s.wg.Done()
@@ -764,11 +766,13 @@ func (s *Server) Close() (err error) {
 	}
 
 closing:
+	verifhook.At("transport.Server.Close.elected")
 	// Closing the socket unblocks both the Serve read loop and any in-flight
 	// writes before we wait for workers or acquire per-session locks.
 	s.closeErr = s.udpConn.Close()
 	close(s.stopCookieRotate)
 	s.wg.Wait()
+	verifhook.At("transport.Server.Close.workersDone")
 
 	s.m.Lock()
 	close(s.pendingConnections)
@@ -779,6 +783,7 @@ closing:
 	clear(s.handshakes)
 	clear(s.sessions)
 	s.m.Unlock()
+	verifhook.At("transport.Server.Close.tablesCleared")
 
 	for _, ss := range sessions {
 		if ss.handle != nil {
